@@ -1,11 +1,17 @@
 #!/bin/bash
-# usage: vf/sweep.sh  -- every seeded change against the check of its own property (and, where listed, others)
+# usage: vf/sweep.sh  -- every seeded change against the check of its own property (and C07 where the change is not about panics),
+# then every behaviour-preserving change of benign/ against the checks of the functions it touches (listed in benign/PROPS).
 cd /verif
 for d in seeded/*/; do
-  n=$(basename $d); p=${n%%-*}; p=${p%b}
+  n=$(basename $d); p=${n%%-*}; p=$(echo $p | sed 's/[a-z]$//')
   extra=""
   case "$p" in C09|C10|C08|C02) extra="C07";; esac
   echo "== $n -> $p $extra"
   python3 -m vf.seedtest seeded/$n $p $extra 2>&1 | grep -v "^      " | cut -c1-220
 done
+while read -r name props; do
+  [ -z "$name" ] && continue
+  echo "== benign/$name -> $props"
+  python3 -m vf.seedtest benign/$name $props 2>&1 | grep -v "^      " | cut -c1-220
+done < benign/PROPS
 echo SWEEP-DONE
